@@ -357,4 +357,23 @@ class TreeCrossover(Facet):
         w.run(obs)
 
 
-FACETS = [LinearStructured(), GECrossoverAllCuts(), TreeCrossover()]
+class TreeCrossoverConcreteStart(TreeCrossover):
+    """Start symbol = a recursive production: tree crossover then really donates inner subtrees of
+    the other parent, and children of one crossover are parents of the next (second-generation
+    donors)."""
+
+    name = "tree_crossover_concrete_recursive_start"
+
+    def budget(self, tier):
+        return (250, 8) if tier == "quick" else (800, 16)
+
+    def strategy(self, tier):
+        fl = Flags(tuples=False, dependent=False, user_mh=False, max_concrete=6, min_extra_concrete=2, concrete_start="always", bare_lists=False, max_list_size=2)
+        base = world_cases(fl, reps=("tree",), deciders=("maxdepth", "pigrow"), max_ops=1, depth_extras=(1, 2, 3), with_map=False)
+        idx = st.integers(0, 40)
+        xs = st.lists(st.builds(lambda i, j: ["crossover", i, j], idx, idx), min_size=4, max_size=14)
+        # three fresh parents, then only crossovers: children of one crossover are parents (and donors) of the next
+        return st.builds(lambda c, x: {**c, "ops": [["create"], ["create"], ["create"]] + x}, base, xs)
+
+
+FACETS = [LinearStructured(), GECrossoverAllCuts(), TreeCrossover(), TreeCrossoverConcreteStart()]
